@@ -539,6 +539,10 @@ def cmd_check(a):
                 continue
             rf, why = minimise(b, prop, r, v)
             if rf is None:
+                # keep what is needed to analyse a run that did not replay (determinism bug in the machinery)
+                os.makedirs(os.path.join(VERIF, "replays"), exist_ok=True)
+                with open(os.path.join(VERIF, "replays", "unreproduced-%s-%d-%d.json" % (prop, seed, r["run"])), "w") as f:
+                    json.dump(make_replay(b, prop, r, v), f, indent=1)
                 write_evidence(prop, tier, seed, cfg.get("level", "exploration"), agg, time.time() - t0, 0, known_hit)
                 infra("violation %s in run %d could not be replayed: %s" % (cls, r["run"], why))
             ok, why = verify_replay(b, rf, prop)
